@@ -208,6 +208,10 @@ def run_all(rep, scenarios, suite, check=None):
     for sc, ans in zip(scenarios, answers):
         io = impl_run(sc)
         mo = ans['out']
+        rep.stat('left_sides_decided_by_literal_model', ans.get('lit_claimed', 0))
+        rep.stat('left_sides_from_harness_table', len(model_request(sc).get('lit', {})) - ans.get('lit_claimed', 0))
+        for k in ans.get('lit_mismatch', []):
+            rep.disagree('literal-model', {'left_side': k}, 'litKnown claims otherwise', 'ast.literal_eval')
         for i, (a, b) in enumerate(zip(io, mo)):
             if a != b:
                 rep.disagree(suite, {'scenario': {k: v for k, v in sc.items() if k != 'queries'},
